@@ -6,6 +6,7 @@ import os
 import time
 
 from .src import AnalysisError, Program
+from .alg import AlgebraTimeout
 
 VERIF = os.path.dirname(os.path.dirname(os.path.abspath(__file__)))
 
@@ -96,6 +97,8 @@ def _par_worker(i):
     try:
         func(sub, items[i])
     except AnalysisError as e:
+        return ("aerr", str(e))
+    except AlgebraTimeout as e:
         return ("aerr", str(e))
     except Exception as e:     # pragma: no cover
         import traceback
